@@ -23,6 +23,22 @@ Theorem C13_old_code_refuted :
   stored (step_old (step_old g0 (Simulate Hybrid)) (Simulate Hourly)) = Some {| r_h := 100; r_m := Hourly; r_axis := Hybrid |}.
 Proof. exact old_hourly_after_hybrid_wrong_axis. Qed.
 
+(* the manager with its design object (Model/ObjState.gstep): find_design works with the physical inputs as they were at the LAST set_design *)
+Theorem C13_design_is_the_last_capture : forall m ops1 x ops2,
+  forallb (fun o => negb (is_set_design o)) ops2 = true ->
+  design_inputs (grun m (ops1 ++ SetDesign x :: ops2)) = Some (physical (mrun (m_cfg m) (ops1 ++ [SetDesign x]))).
+Proof. exact design_is_the_last_capture. Qed.
+Print Assumptions C13_design_is_the_last_capture.
+
+(* ... so two call histories that agree on the physical inputs at their last set_design give find_design the same inputs: whatever
+   came before, whatever nominal heights were used, whatever setters were called afterwards without set_design *)
+Theorem C13_same_inputs_same_design : forall m1 m2 a1 a2 x1 x2 b1 b2,
+  forallb (fun o => negb (is_set_design o)) b1 = true -> forallb (fun o => negb (is_set_design o)) b2 = true ->
+  physical (mrun (m_cfg m1) (a1 ++ [SetDesign x1])) = physical (mrun (m_cfg m2) (a2 ++ [SetDesign x2])) ->
+  design_inputs (grun m1 (a1 ++ SetDesign x1 :: b1)) = design_inputs (grun m2 (a2 ++ SetDesign x2 :: b2)).
+Proof. exact same_inputs_same_design. Qed.
+Print Assumptions C13_same_inputs_same_design.
+
 (* the call sites in manager.py (read on every run): every design class is built from the manager's current input objects,
    the same argument list for all six methods *)
 Theorem C13_every_design_built_from_current_inputs :
